@@ -75,6 +75,31 @@ Theorem C11_wrapper_io_error_nonzero_exit0_all_accepted :
 Proof. exact wrapper_io_spec_proof. Qed.
 Print Assumptions C11_wrapper_io_error_nonzero_exit0_all_accepted.
 
+(* ... and conversely: no failed call in either thread and the child answered exactly what the records
+   needed => the wrapper's status is Wait's value for the child's wait status; with C11_child_exit_propagates'
+   arithmetic: a child exiting with code c gives status c *)
+Theorem C11_wrapper_io_clean_status :
+  forall wr fd_child sent records needs child_lines rest t orc_f orc_c st evf evc,
+  wrapper_io_run wr fd_child sent records needs child_lines t orc_f orc_c = (st, evf, evc) ->
+  collect needs child_lines = Some rest -> (wr = B64filter -> rest = 0%nat) ->
+  any_failed evf = false -> any_failed evc = false ->
+  st = Exited (Wait (wstatus t) mod 256).
+Proof. exact wrapper_io_clean_proof. Qed.
+Print Assumptions C11_wrapper_io_clean_status.
+
+(* preprocess::Launch, parent side (close-on-exec status pipe), any oracle: an empty command line, a failed read
+   of the status pipe (other than EAGAIN/EINTR, which are retried) or any byte from the child (its execvp failed)
+   => the exception leaves main => SIGABRT; only "end of file on the status pipe" lets the wrapper go on *)
+Theorem C11_launch_failure_nonzero :
+  forall words fd orc after st evs,
+  launch_status words fd orc after = (st, evs) ->
+  ((words = 0%nat /\ launch_checks_command = true) \/ launch_ok evs = false -> st = Signaled SIGABRT) /\
+  (launch_ok evs = true -> st = after).
+Proof. exact launch_spec_proof. Qed.
+Print Assumptions C11_launch_failure_nonzero.
+
+
+
 (* iostream tools, for ANY segmentation of the output into write(2) calls by stdio:
    with the stream-state tests that the four mains contain today (regenerated booleans). *)
 Theorem C11_iostream_io_error_nonzero_exit0_all_accepted :
